@@ -99,6 +99,23 @@ func generate(cfg *hx.Config) []hx.Case {
 		add(mk(fmt.Sprintf("x-fullC%d-sw+CE1", big), stateScript("fullC", big), []string{"sw:1:100000+CE1"}), "fullC", "sw+CE1")
 		add(mk(fmt.Sprintf("x-fullS%d-cw+SE1", big), stateScript("fullS", big), []string{"cw:1:100000+SE1"}), "fullS", "cw+SE1")
 	}
+	// 4b. a write toward a peer that has stopped reading is blocked inside the writer goroutine;
+	//     the session ends by another route; only then does the blocked write fail
+	stalledC := []string{"hs:65535:65535", "ch:1", "sh:1", "STC", "sh:3"} // server HEADERS stuck in Write toward the client
+	for _, ev := range []string{"HC", "CC", "CE1", "SC", "SE1", "CL", "SR"} {
+		add(mk("b-stallC-"+ev+"-WFC", stalledC, []string{ev, "WFC"}), "stalledC", ev+",WFC")
+	}
+	add(mk("b-stallC-WFC", stalledC, []string{"WFC"}), "stalledC", "WFC")
+	// upstream stalled: bulk DATA until the proxy's socket buffer is full
+	stalledS := []string{"hs:65535:2147483647", "sw:0:2147418112", "ch:1", "STS", "cd:1:700:16384"}
+	sevs := []string{"FH", "CC", "CL"}
+	if cfg.Thorough() {
+		sevs = []string{"FH", "SC", "CC", "CE1", "CL"}
+	}
+	for _, ev := range sevs {
+		add(mk("b-stallS-"+ev+"-FR", stalledS, []string{ev, "FR"}), "stalledS", ev+",FR")
+	}
+	add(mk("b-stallS-FR", stalledS, []string{"FR"}), "stalledS", "FR")
 	// 5. controls: nothing that ends the session has happened, the relay must stay up
 	add(mk("c-idle", stateScript("idle", 0), []string{"cp", "sp"}), "idle", "none")
 	add(mk("c-mid-armed", stateScript("mid", 0), []string{"WFC", "cp"}), "mid", "none(WFC armed, no write toward the client)")
